@@ -23,12 +23,25 @@ GEN_FILES = {"ClientConsts.v"}
 PINS = {
     "C06_channel_ends_refuted": "exists sched, run {| fl_refused_closed := false; fl_close_asserts := true; fl_cancel := false |} "
                                 "(created 7 1 CSender []) sched = CPanic 1 S_CLOSE_ABSENT",
-    "C06_channel_ends_this_tree": "f1_statement CLAIM_REFUSED_MARKS_CLOSED CLOSE_REPLY_ASSERTS",
+    "C06_channel_ends": "forall fl, fl_refused_closed fl = true -> fl_cancel fl = false -> forall k c0 ec others sched, "
+                        "(forall c, run fl (created k c0 ec others) sched <> CReject c) /\\ "
+                        "(forall c site, run fl (created k c0 ec others) sched <> CPanic c site)",
+    "C06_channel_ends_this_tree": "this_tree_statement CLAIM_REFUSED_MARKS_CLOSED CLOSE_REPLY_ASSERTS",
+    "C06_refused_claim_witness": "f1_statement CLAIM_REFUSED_MARKS_CLOSED CLOSE_REPLY_ASSERTS",
     "C06_cancelled_claim_refuted": "exists sched, run {| fl_refused_closed := true; fl_close_asserts := true; fl_cancel := true |} "
                                    "(created 7 1 CSender []) sched = CPanic 1 S_CLOSE_ABSENT",
     "C06_double_bind_refuted": "forall fl, fl_cancel fl = true -> exists sched, run fl (created 7 1 CSender []) sched "
                                "= CPanic 1 S_SEND_ITEM_ABSENT",
     "C06_listeners": "forall k ops, exists z, lrun k lcreated ops = LOk z",
+    "C06_reply_matching": "forall asserts ver ops K s, rrun asserts {| r_v := view0 ver; r_up := []; r_down := [] |} ops "
+                          "<> RUnmatched K s",
+    "C06_calls": "forall sc ops, exists z, wrun sc wcreated ops = WOk z",
+    "C06_channel_slice_is_recv": "forall fl k v x m, crel k v x -> about k v m -> match crecv fl x m, "
+                                 "recv_with (fl_close_asserts fl) true v m with",
+    "C06_listener_slice_is_recv": "forall asserts alive k v z m, lrel k v z -> labout k v m -> match lrecv z m, "
+                                  "recv_with asserts alive v m with",
+    "C06_service_slice_is_recv": "forall asserts alive sc v z m, wrel sc v z -> wabout sc v m -> match wrecv alive z m, "
+                                 "recv_with asserts alive v m with",
     "C06_no_deadlock": "forall n : net, (1 <= bcap n)%nat -> match cap n with Some c => (1 <= c)%nat | None => True end -> "
                        "busy n = true -> exists s, enabled n s = true",
 }
@@ -305,10 +318,14 @@ def run(tier, seed):
     o.coverage["source_shape"] = shape
     o.coverage["explanation"] = (
         "proof for the protocol logic, partial for scheduling: the acceptance automaton of the client, the handle-side "
-        "typestate of channel ends and the listener protocol are Coq models; C06_listeners and C06_no_deadlock hold for all "
-        "schedules of their composed systems; C06_channel_ends is REFUTED for the source shape at the pinned commit (witness "
-        "reproduced on the real code) and C06_channel_ends_this_tree states what holds for the shape read from the tree; "
-        "cancelled claims and double binds stay refuted (known findings). Lost wake-ups, deadlock of the real tasks on "
+        "typestate of channel ends, the listener protocol and one service's call protocol are Coq models; "
+        "C06_reply_matching, C06_calls, C06_listeners, C06_no_deadlock and C06_channel_ends (repaired claim() error path, "
+        "claims awaited) hold for ALL schedules of their composed systems, and the slices used there are proved to be the "
+        "acceptance automaton restricted to one cookie; C06_channel_ends is REFUTED for the source shape at the pinned "
+        "commit (witness reproduced on the real code) and C06_channel_ends_this_tree states what holds for the shape read "
+        "from the tree; cancelled claims and double binds stay refuted (known findings). The broker side of the composed "
+        "systems is Model.v's channel functions / a mirror of its listener and service arms / the reply contract, not the "
+        "whole Model.step. Lost wake-ups, deadlock of the real tasks on "
         "bounded FIFOs, livelock and fairness are runtime behaviour: explored by the seeded scheduler over random "
         "programs, not proved")
     per_shard, shards, ops, reps = SIZES[tier]
